@@ -146,6 +146,9 @@ func (t *WebsocketTransport) Read(p []byte) (int, error) {
 }
 
 func (t WebsocketTransport) Write(p []byte) (int, error) {
+	if verifEnabled {
+		vpoint("ws.write", "n", len(p))
+	}
 	if t.logFile != nil {
 		_, _ = fmt.Fprintf(t.logFile, "SEND:\n%s\n\n", p)
 	}
